@@ -12,6 +12,9 @@ open Nima.C13
 #print axioms readData_renderExpr
 #print axioms readBinding_renderBinding
 #print axioms roundtrip_partial
+#print axioms readable_iff_avoids
+#print axioms float_repr_readable_iff_dot
+#print axioms roundtrip_domain
 #print axioms cex_neg_in_list
 #print axioms cex_float_no_dot
 #print axioms cex_float_no_dot_binding
